@@ -137,6 +137,7 @@ sim::Json generate(const std::string& tier, uint64_t seed, uint64_t index) {
   script.set("status", codes[rng.below(6)]);
   script.set("solve_iters", 0);
   script.set("basis_salt", (long)rng.below(6));
+  script.set("dual_mode", (long)(rng.chance(0.5) ? 0 : rng.range(1, 3)));
   sc.set("script", script);
   return sc;
 }
@@ -239,6 +240,7 @@ sim::RunResult run(const sim::Json& sc) {
   sim::clean_scratch();
   g_stub.clear();
   g_script = sc["script"];
+  g_dual_mode = (int)g_script["dual_mode"].as_int(0);
   sim::system_hook = driver_via_system;
   sim::capture_begin();
   static sigjmp_buf jb;
